@@ -64,7 +64,9 @@ func (t *WebsocketTransport) Connect() (string, error) {
 	})
 
 	if err != nil {
-		return "", NewConnError(err, true)
+		// Not being able to reach the server right now (connection refused or timed out, a proxy answering for a
+		// server that is restarting) is not a permanent condition: as for the TCP transport.
+		return "", NewConnError(err, false)
 	}
 	// What counts is the connection the handshake ended on, not the address it started from.
 	t.secure = response.TLS != nil
